@@ -36,7 +36,7 @@ class TlcResult(object):
 
 
 def _workdir(tag):
-    d = os.path.join(BUILD, "tlc", tag)
+    d = os.path.join(BUILD, "tlc", "%s.%d" % (tag, os.getpid()))   # two runs of one check never share a directory
     shutil.rmtree(d, ignore_errors=True)
     os.makedirs(d)
     return d
